@@ -188,6 +188,36 @@ class RefInterp(ObjInterp):
             o = fr.env.get('this')
             return ('addr', o) if o else None
         if k == 'UnaryOperator' and e.get('opcode') == '&':
+            # &static_cast<T &>(*handle) / &*p: the address of the pointee reached through a dereference.  A cast between
+            # class references adds the base offset unconditionally (no null check, unlike the pointer conversion)
+            inner, upcast = tu.kids(e)[0], False
+            for _ in range(10):
+                if inner is None:
+                    break
+                ik = inner.get('kind')
+                if ik in ('ImplicitCastExpr', 'CXXStaticCastExpr', 'CStyleCastExpr', 'CXXFunctionalCastExpr', 'ParenExpr',
+                          'CXXReinterpretCastExpr', 'CXXConstCastExpr'):
+                    if inner.get('castKind') in ('DerivedToBase', 'UncheckedDerivedToBase', 'BaseToDerived') or ik == 'CXXReinterpretCastExpr':
+                        upcast = True
+                    inner = tu.kids(inner)[-1] if tu.kids(inner) else None
+                    continue
+                break
+            deref = None
+            if inner is not None and inner.get('kind') == 'UnaryOperator' and inner.get('opcode') == '*' and \
+                    is_ptr_ct(tu.sd(tu.strip(tu.kids(inner)[0])).get('ct')):
+                deref = self.pval(tu.kids(inner)[0], st, fr, depth + 1)
+            elif inner is not None and inner.get('kind') == 'CXXOperatorCallExpr' and tu.sd(inner).get('rec') == IP and \
+                    tu.sd(inner).get('q', '').split('::')[-1] == 'operator*':
+                vals = self.call_value(inner, st, fr)
+                deref = vals[0] if vals and len(set(map(repr, vals))) == 1 else None
+            if deref in ('null',) + OBJS:
+                if deref == 'null' and upcast and self._cur is not None:
+                    self.report('null-reference-cast', 'the pointer is formed as `%s`: an empty handle / null pointer is dereferenced and the '
+                                'reference is cast to another class of the hierarchy, which adds the base-class offset without a null check - '
+                                'for a base that is not at offset 0 the result is a non-null pointer to no object (an empty handle converts '
+                                'to a non-empty one whose refInc/refDec touch memory that is not an object); convert the pointer, not the '
+                                'reference' % tu.show(e), e, fr, st)
+                return deref
             o = self.obj_of(tu.kids(e)[0], fr)
             return ('addr', o) if o else None
         if k == 'UnaryOperator' and e.get('opcode') == '*':
